@@ -109,7 +109,18 @@ def c10(run):
     for kind, origin, amount, hk in (("range", 2, 2, ""), ("range", 0, 1, ""), ("range", 3, 1, ""), ("hash", 0, 1, "known"), ("hash", 0, 1, "unknown")):
         extra.append({"k": "C10", "in": {"kind": kind, "tail": 1, "head": 4, "origin": origin, "amount": amount, "hk": hk, "g": "", "stall": True},
                       "predicted": {"status": "reset", "heights": [], "spans": []}, "from_tlc": False})
-    cases, _ = table_flow(run, "Server", "Server.cfg", "C10", "TestServer", "ServerTrace", ["C10_"], extra_cases=extra,
+    def fprune(rows):
+        # replay-only variant of the rows over a pruned store: the pruning was interrupted by a datastore fault inside the
+        # deletion of the header right under the tail and retried; a by-hash request for an unknown hash asks for that header
+        import copy
+        out = []
+        for c in rows:
+            if c["in"]["tail"] > 2 and c["in"]["head"] < 20:
+                c2 = copy.deepcopy(c)
+                c2["in"]["fprune"] = True
+                out.append(c2)
+        return out
+    cases, _ = table_flow(run, "Server", "Server.cfg", "C10", "TestServer", "ServerTrace", ["C10_"], extra_cases=extra, derive=fprune,
                           sig_fn=lambda c, f: {"kind": c.get("in", {}).get("kind"), "below_tail": c.get("in", {}).get("origin", 0) < c.get("in", {}).get("tail", 0)})
     for c in cases[:2] + cases[200:202]:
         run.sample({"in": c["in"], "predicted": c["predicted"]})
